@@ -27,6 +27,9 @@
 #include <cnl/_impl/used_digits.h>
 #include <cnl/bit.h>
 #include <cnl/numeric.h>
+#include <cnl/elastic_integer.h>
+#include <cnl/overflow_integer.h>
+#include <cnl/rounding_integer.h>
 
 // the driver's config string does not contain -D defines: programs of the units built with
 // CNL_USE_GCC_INTRINSICS=0 carry a name prefix so that reports, replays and known-finding patterns can
@@ -729,6 +732,38 @@ void wide_group()
     prog_digits<U, false, SET_ALL>(P);
 }
 
+// ---- used_digits / leading_bits of CNL number types (the library applies them to its own wrappers): the counts are those
+// of the held value, with digits_v of the wrapper as the width
+template<class W>
+[[gnu::noinline]] void prog_wrapper_digits(const char* wname, long long lo, long long hi)
+{
+    if (!vf::begin(std::string("wrapper_digits<") + wname + ">", true)) return;
+    constexpr int digits = cnl::digits_v<W>;
+    for (long long v = lo; v <= hi; ++v) {
+        if (!vf::my_row()) continue;
+        std::string const id = std::to_string(v);
+        if (vf::replaying() && !vf::case_selected(id)) continue;
+        unsigned long long m = v < 0 ? ~static_cast<unsigned long long>(v) : static_cast<unsigned long long>(v);
+        int const bl = int(std::bit_width(m));
+        int ud = -1, lb = -1;
+        W w(v);
+        vf::Outcome o = vf::run([&] {
+            ud = static_cast<int>(cnl::used_digits(w));
+            lb = static_cast<int>(cnl::leading_bits(w));
+        });
+        vf::validated(2);
+        vf::counted(v < 0);
+        const char* cls = v < 0 ? "negative" : (v == 0 ? "zero" : "positive");
+        if (!o.ok()) vf::violation(std::string("wrapper_digits/") + o.str() + "/" + cls, id, std::string(wname) + "{" + id + "}: " + o.str());
+        else if (ud != bl)
+            vf::violation(std::string("value/used_digits/wrapper/") + cls, id, std::string("used_digits(") + wname + "{" + id + "}): expected " + std::to_string(bl) + ", got " + std::to_string(ud));
+        else if (lb != digits - bl)
+            vf::violation(std::string("value/leading_bits/wrapper/") + cls, id, std::string("leading_bits(") + wname + "{" + id + "}): expected " + std::to_string(digits - bl) + ", got " + std::to_string(lb));
+        else
+            vf::outcome(std::string("ok_wrapper_digits_") + cls);
+    }
+}
+
 static void g_narrow()
 {
     prog_unary<u8, false>(FullSpace<u8>{});
@@ -741,6 +776,12 @@ static void g_narrow()
     prog_digits<i16, false, SET_ALL>(FullSpace<u16>{});
     prog_digits<u8, false, SET_ALL>(FullSpace<u8>{});
     prog_digits<u16, false, SET_ALL>(FullSpace<u16>{});
+    prog_wrapper_digits<cnl::elastic_integer<7>>("elastic_integer<7>", -127, 127);
+    prog_wrapper_digits<cnl::elastic_integer<20>>("elastic_integer<20>", -70000, 70000);
+    prog_wrapper_digits<cnl::elastic_integer<8, unsigned>>("elastic_integer<8,unsigned>", 0, 255);
+    prog_wrapper_digits<cnl::overflow_integer<int>>("overflow_integer<int>", -70000, 70000);
+    prog_wrapper_digits<cnl::rounding_integer<int>>("rounding_integer<int>", -70000, 70000);
+    prog_wrapper_digits<cnl::overflow_integer<cnl::elastic_integer<12>>>("overflow_integer<elastic_integer<12>>", -4095, 4095);
 }
 VF_GROUP(g_narrow);
 
